@@ -106,6 +106,10 @@ func cfgS4(prop string, seed uint64, tier string) *RunCfg {
 			c.Txns[i].Kind = ""
 		}
 	}
+	if r.Intn(6) == 0 && c.Knobs["leader_only"] != 1 {
+		c.Scenario = "S4R" // against the stub server that remembers transaction ids (found=true path)
+		c.Clients[0].Inactivity = 0
+	}
 	// fault plan
 	nf := 1 + r.Intn(3)
 	for k := 0; k < nf; k++ {
